@@ -89,7 +89,20 @@ def rendered_back(ctx):
   C09.velocity(ctx)
 
 
+def zero_is_a_value(ctx):
+  """Every function of the extractor modules: an optional instrument / an optional melody event is never tested for truth
+  (instrument 0 and pitch 0 are ordinary values)."""
+  from sa import pitfalls
+  scope = []
+  for mn in ('melodies_lib', 'drums_lib', 'chords_lib', 'performance_lib', 'pianoroll_lib'):
+    mi = ctx.P.module(mn)
+    scope.extend(fi for q, fi in sorted(mi.all_functions.items()) if '<locals>' not in q)
+  pitfalls.apply(ctx, 'PITFALL', scope, ['falsy-domain-zero'], {
+      'falsy-domain-zero': 'what is extracted then depends on whether an instrument number / a pitch happens to be 0: instrument 0 selects every instrument, a melody note of pitch 0 is not ended'})
+
+
 def run(ctx):
+  zero_is_a_value(ctx)
   rendered_back(ctx)
   order(ctx)
   roll_gap_index(ctx)
